@@ -196,7 +196,8 @@ func verifC40Worker(pm *pathManager, r *verifutil.Rand, iters int, mix int, wg *
 }
 
 // verifC40Sites: for every goroutine parked in a channel operation / select / WaitGroup.Wait whose
-// innermost non-runtime frame is code of internal/core (not this harness): "Type.method:line".
+// innermost non-runtime frame is code of internal/core (not this harness): "Type.method" (line numbers
+// are not used: they are imprecise under inlining and -race).
 // This is what the extracted table must know about (conformance of the model's waits).
 func verifC40Sites(into map[string]bool) {
 	buf := make([]byte, 4<<20)
@@ -208,8 +209,7 @@ func verifC40Sites(into map[string]bool) {
 		}
 		hdr := lines[0]
 		if !(strings.Contains(hdr, "[chan send") || strings.Contains(hdr, "[chan receive") ||
-			strings.Contains(hdr, "[select") || strings.Contains(hdr, "WaitGroup.Wait") ||
-			strings.Contains(hdr, "[semacquire")) {
+			strings.Contains(hdr, "[select") || strings.Contains(hdr, "WaitGroup.Wait")) {
 			continue
 		}
 		for i := 1; i+1 < len(lines); i += 2 {
@@ -229,14 +229,7 @@ func verifC40Sites(into map[string]bool) {
 			if strings.HasPrefix(f, "verifC40") || strings.HasPrefix(f, "TestVerif") || strings.Contains(f, ".func") {
 				break
 			}
-			loc := strings.TrimSpace(lines[i+1])
-			if k := strings.LastIndex(loc, ":"); k >= 0 {
-				ln := loc[k+1:]
-				if sp := strings.IndexByte(ln, ' '); sp >= 0 {
-					ln = ln[:sp]
-				}
-				into[f+":"+ln] = true
-			}
+			into[f] = true
 			break
 		}
 	}
@@ -337,7 +330,8 @@ func verifC40Exec(op string) string {
 	sites := map[string]bool{}
 	tick := time.NewTicker(3 * time.Millisecond)
 	defer tick.Stop()
-	deadline := time.After(watchdog)
+	start := time.Now()
+	last, lastChange := ops.Load(), time.Now()
 	for {
 		select {
 		case <-finished:
@@ -354,9 +348,19 @@ func verifC40Exec(op string) string {
 			if len(sites) < 64 {
 				verifC40Sites(sites)
 			}
-		case <-deadline:
-			verifC40Hangs++
-			return "hang " + verifC40Blocked()
+			if cur := ops.Load(); cur != last {
+				last, lastChange = cur, time.Now()
+			}
+			// the watchdog fires when no operation completed for `watchdog` AND goroutines are parked
+			// inside internal/core (a slow machine alone is not a hang); hard cap 90 s
+			if time.Since(lastChange) > watchdog {
+				b := verifC40Blocked()
+				if b != "?" || time.Since(start) > 90*time.Second {
+					verifC40Hangs++
+					return "hang " + b
+				}
+				lastChange = time.Now()
+			}
 		}
 	}
 }
